@@ -77,6 +77,10 @@ Definition accept_ok (expiry : Z) (evs : list event) (claim : N) (t : Z) : Prop 
 
 (** ** Invariant *)
 
+(** The attempt counter is a 64-bit [int]; it counts faithfully as long as the
+    history is shorter than 2^63 events (a premise of the theorems below). *)
+Definition short_history (evs : list event) : Prop := Z.of_nat (length evs) < two63 - 1.
+
 Definition inv (expiry : Z) (s : rstate) (evs : list event) : Prop :=
   r_issued s = n_issues evs /\
   match since_issue evs with
@@ -84,6 +88,7 @@ Definition inv (expiry : Z) (s : rstate) (evs : list event) : Prop :=
   | Some (ti, after) =>
       exists pc, r_pc s = Some pc /\
         p_code pc = n_issues evs /\ n_issues evs <> 0%N /\
+        p_has_valid pc = true /\ p_has_expire pc = true /\
         p_valid pc = ti - valid_buffer /\ p_expire pc = ti + Z.max 0 expiry /\
         p_consumed pc = existsb is_accept after /\
         p_tried pc = Z.of_nat (length (filter counted after))
@@ -100,6 +105,26 @@ Qed.
 
 Lemma n_issues_other e evs : is_issue e = false -> n_issues (e :: evs) = n_issues evs.
 Proof. intros H. unfold n_issues. cbn [filter]. now rewrite H. Qed.
+
+Lemma since_issue_length evs ti after :
+  since_issue evs = Some (ti, after) -> (length after < length evs)%nat.
+Proof.
+  revert ti after. induction evs as [|e r IH]; intros ti after; cbn [since_issue]; [discriminate|].
+  destruct e as [o res].
+  assert (forall X : option (Z * list event),
+            X = match since_issue r with Some (t, a) => Some (t, (o, res) :: a) | None => None end ->
+            X = Some (ti, after) -> (length after < length ((o, res) :: r))%nat) as G.
+  { intros X -> E. destruct (since_issue r) as [[t a]|] eqn:Si; [|discriminate].
+    injection E as <- <-. specialize (IH _ _ eq_refl). cbn [length]. unfold event in *. lia. }
+  destruct o as [t|c i t| |]; try (apply G; reflexivity).
+  destruct res; [|apply G; reflexivity]. intros [= <- <-]. cbn [length]. unfold event in *. lia.
+Qed.
+
+Lemma filter_length_le {A} (f : A -> bool) l : (length (filter f l) <= length l)%nat.
+Proof. induction l as [|x l IH]; cbn [filter length]; [lia|]. destruct (f x); cbn [length]; lia. Qed.
+
+Lemma wrap_int_small z : - two63 <= z < two63 -> wrap_int z = z.
+Proof. unfold wrap_int, two63. intros H. rewrite Z.mod_small; lia. Qed.
 
 (** An event that is neither an issue, nor an accepted or counted attempt,
     leaves everything the invariant speaks about unchanged. *)
@@ -119,6 +144,8 @@ Lemma checkPassCode_not_1 claim pc t : checkPassCode claim pc t <> 1%N.
 Proof.
   unfold checkPassCode. destruct (claim =? 0)%N; [discriminate|].
   destruct pc as [c|]; [|discriminate].
+  destruct (negb (p_has_valid c)); [discriminate|].
+  destruct (negb (p_has_expire c)); [discriminate|].
   destruct (max_tries <? p_tried c); [discriminate|].
   destruct (p_consumed c); [discriminate|].
   destruct (t <? p_valid c); [discriminate|].
@@ -128,11 +155,14 @@ Qed.
 
 Lemma checkPassCode_0 claim pc t :
   checkPassCode claim pc t = 0%N ->
-  claim <> 0%N /\ exists c, pc = Some c /\ p_tried c <= max_tries /\ p_consumed c = false /\
+  claim <> 0%N /\ exists c, pc = Some c /\ p_has_valid c = true /\ p_has_expire c = true /\
+    p_tried c <= max_tries /\ p_consumed c = false /\
     p_valid c <= t <= p_expire c /\ p_code c = claim.
 Proof.
   unfold checkPassCode. destruct (N.eqb_spec claim 0); [discriminate|].
   destruct pc as [c|]; [|discriminate].
+  destruct (p_has_valid c) eqn:HV; cbn [negb]; [|discriminate].
+  destruct (p_has_expire c) eqn:HE; cbn [negb]; [|discriminate].
   destruct (Z.ltb_spec max_tries (p_tried c)); [discriminate|].
   destruct (p_consumed c) eqn:C; [discriminate|].
   destruct (Z.ltb_spec t (p_valid c)); [discriminate|].
@@ -141,10 +171,19 @@ Proof.
   intros _. split; [assumption|]. exists c. repeat split; auto; lia.
 Qed.
 
+(** A record without its window never lets an attempt through. *)
+Lemma missing_window_never_accepted claim c t :
+  p_has_valid c = false \/ p_has_expire c = false -> checkPassCode claim (Some c) t <> 0%N.
+Proof.
+  intros H E. apply checkPassCode_0 in E. destruct E as (_ & c' & [= <-] & V & X & _).
+  destruct H; congruence.
+Qed.
+
 Lemma inv_step expiry s evs o :
+  short_history ((o, snd (step expiry s o)) :: evs) ->
   inv expiry s evs -> inv expiry (fst (step expiry s o)) ((o, snd (step expiry s o)) :: evs).
 Proof.
-  intros I. unfold step, step_with.
+  intros SH I. unfold step, step_with.
   destruct o as [t|claim id t| |].
   - (* issue *)
     destruct (r_disabled s) eqn:D; cbn [fst snd].
@@ -153,12 +192,18 @@ Proof.
       assert (n_issues ((PNew t, 0%N) :: evs) = (n_issues evs + 1)%N) as NI.
       { unfold n_issues. cbn [filter is_issue length]. lia. }
       rewrite NI. split; [congruence|].
-      eexists. split; [reflexivity|]. cbn [p_code p_valid p_expire p_consumed p_tried existsb filter length].
+      eexists. split; [reflexivity|].
+      cbn [p_code p_has_valid p_has_expire p_valid p_expire p_consumed p_tried existsb filter length].
       repeat split; try congruence; lia.
   - (* attempt *)
     destruct (r_disabled s) eqn:D; cbn [fst snd].
     + apply (inv_neutral expiry s s); auto.
     + pose proof (checkPassCode_not_1 claim (bump (r_pc s)) t) as N1.
+      assert (forall after ti, since_issue evs = Some (ti, after) ->
+                - two63 <= Z.of_nat (length (filter counted after)) + 1 < two63) as Bound.
+      { intros after ti Si. apply since_issue_length in Si.
+        pose proof (filter_length_le counted after). unfold short_history in SH.
+        cbn [length] in SH. unfold two63, event in *. lia. }
       destruct (checkPassCode claim (bump (r_pc s)) t) as [|p] eqn:R; cbn [fst snd].
       * (* accepted *)
         apply checkPassCode_0 in R. destruct R as (_ & c & B & _).
@@ -166,75 +211,126 @@ Proof.
         rewrite n_issues_other, since_issue_other by reflexivity. cbn [r_issued r_pc].
         split; [exact H1|].
         destruct (r_pc s) as [pc|] eqn:P; [|discriminate]. cbn [bump] in B. injection B as <-.
-        destruct (since_issue evs) as [[ti after]|]; [|discriminate].
-        destruct H2 as (pc' & [= <-] & Hc & Hn & Hv & He & Hk & Ht).
+        destruct (since_issue evs) as [[ti after]|] eqn:Si; [|discriminate].
+        destruct H2 as (pc' & [= <-] & Hc & Hn & Hhv & Hhe & Hv & He & Hk & Ht).
         eexists. split; [reflexivity|].
-        cbn [consume p_code p_valid p_expire p_consumed p_tried existsb filter counted is_accept length].
-        cbn [N.eqb negb orb length]. repeat split; auto. lia.
+        cbn [consume p_code p_has_valid p_has_expire p_valid p_expire p_consumed p_tried
+             existsb filter counted is_accept length].
+        cbn [N.eqb negb orb length]. rewrite Ht, wrap_int_small by (eapply Bound; eauto).
+        repeat split; auto. lia.
       * (* refused: the attempt is recorded *)
         destruct I as [H1 H2]. unfold inv.
         rewrite n_issues_other, since_issue_other by reflexivity. cbn [r_issued r_pc].
         split; [exact H1|].
-        destruct (since_issue evs) as [[ti after]|].
-        -- destruct H2 as (pc & P & Hc & Hn & Hv & He & Hk & Ht). rewrite P. cbn [bump].
+        destruct (since_issue evs) as [[ti after]|] eqn:Si.
+        -- destruct H2 as (pc & P & Hc & Hn & Hhv & Hhe & Hv & He & Hk & Ht). rewrite P. cbn [bump].
            eexists. split; [reflexivity|].
-           cbn [p_code p_valid p_expire p_consumed p_tried existsb filter counted is_accept].
+           cbn [p_code p_has_valid p_has_expire p_valid p_expire p_consumed p_tried
+                existsb filter counted is_accept].
            assert (negb (N.pos p =? 1)%N = true) as ->.
            { destruct (N.eqb_spec (N.pos p) 1); [contradiction|reflexivity]. }
-           cbn [orb length]. repeat split; auto. lia.
+           cbn [orb length]. rewrite Ht, wrap_int_small by (eapply Bound; eauto).
+           repeat split; auto. lia.
         -- rewrite H2. reflexivity.
   - apply (inv_neutral expiry s); auto.
   - apply (inv_neutral expiry s); auto.
 Qed.
 
-Lemma reach_inv expiry s evs : reach expiry s evs -> inv expiry s evs.
+Lemma reach_inv expiry s evs : reach expiry s evs -> short_history evs -> inv expiry s evs.
 Proof.
-  induction 1 as [|s evs o R IH].
+  induction 1 as [|s evs o R IH]; intros SH.
   - split; reflexivity.
-  - now apply inv_step.
+  - apply inv_step; [exact SH|]. apply IH. unfold short_history, event in *. cbn [length] in SH. lia.
 Qed.
 
 (** ** The property *)
 
 Theorem accepted_only_when_ok expiry s evs claim id t :
-  reach expiry s evs -> snd (step expiry s (PTry claim id t)) = 0%N -> accept_ok expiry evs claim t.
+  reach expiry s evs -> short_history evs ->
+  snd (step expiry s (PTry claim id t)) = 0%N -> accept_ok expiry evs claim t.
 Proof.
-  intros R. apply reach_inv in R. destruct R as [H1 H2].
+  intros R SH. apply reach_inv in R; [|exact SH]. destruct R as [H1 H2].
   unfold step, step_with. destruct (r_disabled s); [discriminate|].
   destruct (checkPassCode claim (bump (r_pc s)) t) eqn:C; [|discriminate]. intros _.
-  apply checkPassCode_0 in C. destruct C as (Nz & c & B & Tr & Cs & W & Cd).
+  apply checkPassCode_0 in C. destruct C as (Nz & c & B & _ & _ & Tr & Cs & W & Cd).
   destruct (r_pc s) as [pc|] eqn:P; [|discriminate]. cbn [bump] in B. injection B as <-.
   cbn [p_tried p_consumed p_valid p_expire p_code] in *. unfold accept_ok.
-  destruct (since_issue evs) as [[ti after]|]; [|discriminate].
-  destruct H2 as (pc' & [= <-] & Hc & Hn & Hv & He & Hk & Ht).
+  destruct (since_issue evs) as [[ti after]|] eqn:Si; [|discriminate].
+  destruct H2 as (pc' & [= <-] & Hc & Hn & Hhv & Hhe & Hv & He & Hk & Ht).
   exists ti, after. split; [reflexivity|].
   split; [congruence|]. split; [exact Nz|]. split; [lia|].
   split.
   - rewrite Cs in Hk. symmetry in Hk. clear - Hk.
     induction after as [|e a IH]; [reflexivity|]. cbn [existsb forallb] in *.
     apply orb_false_iff in Hk. destruct Hk as [-> Hk]. cbn [negb andb]. auto.
-  - unfold max_tries in Tr. lia.
+  - apply since_issue_length in Si. pose proof (filter_length_le counted after).
+    rewrite Ht, wrap_int_small in Tr; unfold max_tries, short_history, two63, event in *; lia.
 Qed.
 
 (** For every history of operations and every attempt after it. *)
 Theorem passcode_once_window_limit expiry ops claim id t :
   let '(s, evs) := exec expiry init_state [] ops in
+  short_history evs ->
   snd (step expiry s (PTry claim id t)) = 0%N -> accept_ok expiry evs claim t.
 Proof.
   pose proof (exec_reach expiry ops init_state [] (reach_init expiry)) as R.
   destruct (exec expiry init_state [] ops) as [s evs]. cbn [fst snd] in R.
-  now apply accepted_only_when_ok.
+  intros SH. now apply accepted_only_when_ok.
 Qed.
 
 (** In the property's words: never again once more than ten wrong codes were tried. *)
 Corollary rejected_after_ten_wrong expiry s evs claim id t ti after :
-  reach expiry s evs -> since_issue evs = Some (ti, after) ->
+  reach expiry s evs -> short_history evs -> since_issue evs = Some (ti, after) ->
   10 < Z.of_nat (length (filter counted after)) ->
   snd (step expiry s (PTry claim id t)) <> 0%N.
 Proof.
-  intros R S L A. apply (accepted_only_when_ok expiry s evs claim id t R) in A.
-  destruct A as (ti' & after' & S' & _ & _ & _ & _ & B). rewrite S in S'. injection S' as <- <-. lia.
+  intros R SH Si L A. apply (accepted_only_when_ok expiry s evs claim id t R SH) in A.
+  destruct A as (ti' & after' & S' & _ & _ & _ & _ & B). rewrite Si in S'. injection S' as <- <-. lia.
 Qed.
+
+(** ** Concurrency
+
+    Each operation is one [pisces.KV.Mutate]; C06 shows Mutate is atomic, so a
+    concurrent execution of several callers is one of the interleavings of their
+    operations, and the theorems above, which hold for every list of operations,
+    hold for every interleaving.  [merge] is that notion of interleaving. *)
+
+Inductive merge {A} : list A -> list A -> list A -> Prop :=
+| merge_nil : merge [] [] []
+| merge_l x a b c : merge a b c -> merge (x :: a) b (x :: c)
+| merge_r x a b c : merge a b c -> merge a (x :: b) (x :: c).
+
+Theorem concurrent_callers_atomic expiry (a b ops : list pop) claim id t :
+  merge a b ops ->
+  let '(s, evs) := exec expiry init_state [] ops in
+  short_history evs ->
+  snd (step expiry s (PTry claim id t)) = 0%N -> accept_ok expiry evs claim t.
+Proof. intros _. apply passcode_once_window_limit. Qed.
+
+(** The atomicity is needed.  If an attempt's read and write were separate
+    steps (no Mutate), two attempts with the right code could both read the
+    unconsumed record and both be accepted: *)
+Definition racy_two_attempts (expiry : Z) (s : rstate) (a b : pop) : (N * N) * rstate :=
+  let '(sa, ra) := step expiry s a in     (* a reads s, computes *)
+  let '(sb, rb) := step expiry s b in     (* b reads the same s, computes *)
+  ((ra, rb), sb).                          (* a writes sa, then b overwrites with sb *)
+
+Example without_atomic_mutate_a_code_is_used_twice :
+  let s := fst (step 1000 init_state (PNew 0)) in
+  fst (racy_two_attempts 1000 s (PTry 1 7 5) (PTry 1 8 5)) = (0%N, 0%N) /\
+  (* whereas atomically the second one is refused *)
+  snd (step 1000 (fst (step 1000 s (PTry 1 7 5))) (PTry 1 8 5)) = 5%N.
+Proof. vm_compute. split; reflexivity. Qed.
+
+(** The counter is a 64-bit int: from a stored record whose counter is at the
+    top of the range (not reachable through the operations in fewer than 2^63
+    steps) the next attempt wraps it around and the limit no longer bites. *)
+Example counter_wraps_at_two63 :
+  let s := mkR false (Some (mkPC 1 true 0 true 100 false (two63 - 1))) None 1 in
+  snd (step 1000 s (PTry 1 7 5)) = 0%N /\
+  snd (step 1000 (mkR false (Some (mkPC 1 true 0 true 100 false 11)) None 1) (PTry 1 7 5)) = 4%N /\
+  snd (step 1000 (mkR false (Some (mkPC 1 false 0 true 100 false 0)) None 1) (PTry 1 7 5)) = 9%N.
+Proof. vm_compute. repeat split. Qed.
 
 (** The state the repaired code keeps is needed: with the counter discarded on
     refusal (the code before the repair) fifteen wrong codes do not stop the
